@@ -355,6 +355,9 @@ def jobs(tier, seed):
     P = dict(p_items=0.2, p_retry=0.2, nmax=5)
     js = batches("completeness", scale(tier, 48, 800), scale(tier, 3, 25), gen="mix", p_loop=0.2, P=P, gseed=seed,
                  limit=scale(tier, 120, 0), name="mutants")
+    # loops whose head is a `join: 1` task (the join is the target of the back edge): faults in and behind such a join
+    js += batches("completeness", scale(tier, 16, 300), scale(tier, 2, 25), gen="loop", P=dict(P, p_loop_head_join=1.0, p_loop_join=0.0), gseed=seed + 2,
+                  limit=scale(tier, 120, 0), name="mutants-behind-a-join-in-a-cycle")
     js += batches("soundness", scale(tier, 500, 12000), scale(tier, 30, 300), gen="mix", p_loop=0.25, P=P, gseed=seed + 1, name="wild")
     return js
 
